@@ -765,7 +765,37 @@ def walk(tree, path=()):
                         yield x
 
 
+# ----------------------------------------------------------------------------------------------
+# structured block-string bodies: lines indented with DIFFERENT mixes of space and tab (the raw character
+# enumeration of C02 is too short to hold two such lines)
+
+BLOCK_INDENTS = ["", " ", "  ", "\t", "\t\t", " \t", "\t ", "   "]
+BLOCK_FIRST = ["", "x", " x"]
+BLOCK_TERMS = ["\n", "\r\n", "\r"]
+BLOCK_BETWEEN = [None, "", " \t"]  # nothing / an empty line / a whitespace-only line between content lines 1 and 2
+BLOCK_TRAIL = ["", "T", "T  "]  # nothing / a final terminator / terminator + whitespace-only last line (T = terminator)
+
+
+def block_family(first, k, term, between=BLOCK_BETWEEN, trail=BLOCK_TRAIL):
+    """raw bodies: `first` line, then k content lines `<indent><letter>` with every combination of BLOCK_INDENTS"""
+    import itertools
+
+    letters = "abc"
+    for combo in itertools.product(BLOCK_INDENTS, repeat=k):
+        lines = [ind + letters[i] for i, ind in enumerate(combo)]
+        for bt in between:
+            mid = list(lines)
+            if bt is not None:
+                mid.insert(1, bt)
+            core = term.join([first] + mid)
+            for tr in trail:
+                yield core + tr.replace("T", term)
+
+
 def selftest():
+    assert RS.decode_block("\n  a\n\t\tb\n") == "a\nb"
+    assert RS.decode_block("x\r\n \ta\r\n\t b\r\n   c") == "x\na\nb\n c"
+    assert len(list(block_family("", 2, "\n"))) == 64 * 9
     for body in QUOTED:
         assert RS.decode_quoted(body) is not None, body
     for body in BLOCKS:
